@@ -245,6 +245,10 @@ func vScenarioC01(rc *runCtx) {
 		vC01ManyFiles(rc)
 		return
 	}
+	if rc.param("bufedge", "0") == "1" {
+		vC01BufEdge(rc)
+		return
+	}
 	tp := rc.tape
 	cfg := vDrawConfig(tp, rc.param("full", "1") == "1")
 	maxSize := 400000
